@@ -6,6 +6,7 @@ package main
 // monitored by the vector-clock race monitor.
 
 import (
+	"encoding/json"
 	"fmt"
 	"sort"
 	"strings"
@@ -48,11 +49,11 @@ type editor struct {
 }
 
 type concSpec struct {
-	name    string
-	editors []editor
-	creators int // threads creating T2 unconditionally (empty tag)
-	expirer bool // runs Expire (T2 is pre-populated, expired for 8 days)
-	reader  bool // one extra Get(T1)
+	name     string
+	editors  []editor
+	creators int  // threads creating T2 unconditionally (empty tag)
+	expirer  bool // runs Expire (T2 is pre-populated, expired for 8 days)
+	reader   bool // one extra Get(T1)
 }
 
 func concSpecs() []concSpec {
@@ -227,7 +228,7 @@ func concOracle(sp concSpec, init map[string]string, logs [][]cop) (string, *cor
 	}
 	outcome += " => " + strings.Join(sortedKeys(fresh.toks), "+")
 	if p, ok := fresh.toks["T1"]; ok {
-		outcome += " T1:" + p[strings.Index(p, "|p=") : strings.Index(p, "|exp=")]
+		outcome += " T1:" + p[strings.Index(p, "|p="):strings.Index(p, "|exp=")]
 	}
 	if n := leftoverTemps(); n > 0 {
 		return outcome, viol(sp.name+"/temp-file-left", fmt.Sprintf("%d temporary files left in the token directory after all operations returned", n))
@@ -404,5 +405,95 @@ func runConc(res *core.Result, shard, shards int) {
 			continue
 		}
 		res.AddSub(vrt.Explore(concProgram(sp), res, shard, shards))
+	}
+	for _, p := range httpConcPrograms() {
+		if !core.Want(p.Name) {
+			continue
+		}
+		res.AddSub(vrt.Explore(p, res, shard, shards))
+	}
+}
+
+// ---------------------------------------------------------------------------
+// the same through the HTTP API: two administrators GET the token (and its
+// entity tag) and PUT an edit with If-Match, one optionally DELETEs it; the
+// handlers run as controlled threads.  Of the conditional requests that
+// carried the same tag at most one may be acknowledged.
+
+func httpConcProgram(name string, kinds []string) vrt.Program {
+	return vrt.Program{
+		Name:       name,
+		MaxPreempt: core.Pick(2, 3),
+		Classify:   func(kind, info string) string { return "C16/" + name + "/" + kind },
+		Setup: func() ([]func(), []string, func() (string, *core.Violation)) {
+			freshDisk()
+			httpStatic()
+			exp := vtime.Now().Add(time.Hour)
+			t1 := mkToken("T1", permsA, exp)
+			if _, err := token.Update(t1.Clone(), ""); err != nil {
+				panic(err)
+			}
+			w := &seqWorld{http: true}
+			path := "/galene-api/v0/.groups/g/.tokens/T1"
+			type res struct {
+				kind, tag string
+				code      int
+				pan       string
+			}
+			results := make([]res, len(kinds))
+			var bodies []func()
+			var names []string
+			for i, k := range kinds {
+				i, k := i, k
+				names = append(names, fmt.Sprintf("admin%d-%s", i+1, k))
+				bodies = append(bodies, func() {
+					g := w.do("GET", path, "", "", "")
+					tag := g.Header().Get("ETag")
+					results[i] = res{kind: k, tag: tag, code: -g.Code}
+					if g.Code != 200 || tag == "" {
+						return
+					}
+					var r *recorded
+					if k == "put" {
+						n := t1.Clone()
+						n.Permissions = [][]string{permsB, permsC, permsA}[i%3]
+						n.Token, n.Group = "", ""
+						body, _ := json.Marshal(n)
+						r = w.do("PUT", path, tag, "", string(body))
+					} else {
+						r = w.do("DELETE", path, tag, "", "")
+					}
+					results[i].code, results[i].pan = r.Code, r.panicked
+				})
+			}
+			final := func() (string, *core.Violation) {
+				byTag := map[string][]string{}
+				var out []string
+				for i, r := range results {
+					out = append(out, fmt.Sprintf("%d:%s=%d", i, r.kind, r.code))
+					if r.pan != "" {
+						return "", viol(name+"/panic", "the handler panicked: "+r.pan)
+					}
+					if r.code >= 200 && r.code < 300 {
+						byTag[r.tag] = append(byTag[r.tag], fmt.Sprintf("admin%d-%s", i+1, r.kind))
+					}
+				}
+				for _, l := range byTag {
+					if len(l) > 1 {
+						return "", viol(name+"/stale-tag-accepted",
+							fmt.Sprintf("conditional requests %v carried the same entity tag and were all acknowledged: one of them was applied although the token had changed since its tag was served (%v)", l, out))
+					}
+				}
+				return strings.Join(out, " "), nil
+			}
+			return bodies, names, final
+		},
+	}
+}
+
+func httpConcPrograms() []vrt.Program {
+	return []vrt.Program{
+		httpConcProgram("conc/http-put-put", []string{"put", "put"}),
+		httpConcProgram("conc/http-put-delete", []string{"put", "delete"}),
 	}
 }
